@@ -733,3 +733,8 @@ func VerifFPDefaultCurves() []CurveID { return append([]CurveID(nil), defaultCur
 func VerifFPSupportedSigAndHashes() []SigAndHash {
 	return append([]SigAndHash(nil), supportedSKXSignatureAlgorithms...)
 }
+
+// VerifFPNewClientSessionState builds a cache entry (a TLS <= 1.2 ticket session) for a client session cache.
+func VerifFPNewClientSessionState(ticket []byte, vers, suite uint16, masterSecret []byte) *ClientSessionState {
+	return &ClientSessionState{sessionTicket: ticket, vers: vers, cipherSuite: suite, masterSecret: masterSecret}
+}
